@@ -389,13 +389,16 @@ def BASE(value, base, places=DEFAULT):
             return places
         if places < 0:
             return error.NUM
+    if value < 0 or base < 2 or base > 36:
+        # the digit loop below only terminates for a non-negative value and a radix >= 2
+        return error.NUM
     if value == 0:
         return '0'
     digits = []
     while value:
         digits.append(int(value % base))
         value //= base
-    result = ''.join(str(n) for n in digits[::-1])
+    result = ''.join('0123456789ABCDEFGHIJKLMNOPQRSTUVWXYZ'[n] for n in digits[::-1])
     if places is not DEFAULT:
         if len(result) > places:
             return error.NUM
